@@ -6,6 +6,7 @@ From RV Require Import Gen.Units Model.SvgSize Proofs.SvgSize.
 From Coq Require Import String.
 From RV Require Import Gen.PctAxis Model.ViewportPrims Gen.LeafViewport Proofs.Viewport.
 From RV Require Import Gen.LeafImage Proofs.ImageFit.
+From RV Require Import Gen.Consts Gen.RenderLimit Proofs.RenderLimit.
 Local Open Scope Q_scope.
 
 Theorem C17_no_skew : forall vb s,
@@ -221,6 +222,24 @@ Example C17_image_nv :
   | None => False
   end.
 Proof. vm_compute. reflexivity. Qed.
+
+(* --- round 5 (missed seed C17-17): the scale law needs the layer limit of resvg::render / render_node to be a function of the
+   PIXMAP only.  render_target_size / render_node_target_size are SOURCE-DERIVED (Gen/RenderLimit.v), MAXBB_* are Gen/Consts.v --- *)
+Theorem C17_render_limit_canvas_only : forall pm d,
+  render_target_size pm d = (cw pm, ch pm) /\ render_node_target_size pm d = (cw pm, ch pm).
+Proof. exact render_limit_canvas_only. Qed.
+Print Assumptions C17_render_limit_canvas_only.
+
+Theorem C17_render_limit_ignores_document : forall pm d1 d2,
+  render_target_size pm d1 = render_target_size pm d2 /\ render_node_target_size pm d1 = render_node_target_size pm d2.
+Proof. exact render_limit_ignores_document. Qed.
+Print Assumptions C17_render_limit_ignores_document.
+
+Theorem C17_render_limit_contains_canvas : forall w h, (0 < w -> 0 < h ->
+  - (w * MAXBB_OFF_X) <= 0 /\ w <= - (w * MAXBB_OFF_X) + w * MAXBB_MUL_W /\
+  - (h * MAXBB_OFF_Y) <= 0 /\ h <= - (h * MAXBB_OFF_Y) + h * MAXBB_MUL_H)%Z.
+Proof. exact render_limit_contains_canvas. Qed.
+Print Assumptions C17_render_limit_contains_canvas.
 
 (* non-vacuity: a `use` of width 50% x 40 on a 600x400 viewport referencing a symbol with a viewBox: both the
    transform and the clip rectangle exist, the viewport is 300 x 40 at (10, 20) *)
